@@ -16,6 +16,8 @@ class Effects:
   def __init__(self):
     self.calls: typing.List[typing.Tuple[str, typing.List[typing.Any], ast.AST]] = []
     self.skipped: typing.List[str] = []
+    self.env: typing.Dict[str, typing.Any] = {}
+    self.stopped: typing.Optional[str] = None
 
 
 def collect(ix: Index, f: FuncInfo, stmts, env: typing.Dict[str, typing.Any], receiver: str) -> Effects:
@@ -51,9 +53,25 @@ def collect(ix: Index, f: FuncInfo, stmts, env: typing.Dict[str, typing.Any], re
           env[st.targets[0].id] = ev(st.value)
         except (NotConst, Raised, Exception):
           env.pop(st.targets[0].id, None)
+      elif isinstance(st, ast.AugAssign) and isinstance(st.target, ast.Name):
+        try:
+          env[st.target.id] = ev(ast.fix_missing_locations(ast.copy_location(ast.BinOp(left=ast.Name(id=st.target.id, ctx=ast.Load()), op=st.op, right=st.value), st)))
+        except (NotConst, Raised, Exception):
+          env.pop(st.target.id, None)
+      elif isinstance(st, (ast.Continue, ast.Break, ast.Return)):
+        out.stopped = type(st).__name__
+        raise _Stop()
       elif isinstance(st, (ast.Pass, ast.Expr)):
         continue
       else:
         out.skipped.append(type(st).__name__)
-  run(stmts)
+  try:
+    run(stmts)
+  except _Stop:
+    pass
+  out.env = env
   return out
+
+
+class _Stop(Exception):
+  pass
